@@ -85,6 +85,16 @@ def main():
                 if isinstance(e, (KeyboardInterrupt, SystemExit)):
                     raise
                 out.setdefault("step_errors", []).append(f"{type(e).__name__}: {e}"[:200])
+        elif step[0] == "compile-target":
+            # the very same UFL objects compiled earlier with other options (state cached on the objects themselves)
+            if target_objs is None:
+                target_objs = build_all(job["target"])
+            try:
+                ffcx.compiler.compile_ufl_objects(target_objs, options=ffcx.options.get_options(dict(step[1] or {})), namespace="earlier")
+            except BaseException as e:  # noqa: BLE001
+                if isinstance(e, (KeyboardInterrupt, SystemExit)):
+                    raise
+                out.setdefault("step_errors", []).append(f"{type(e).__name__}: {e}"[:200])
         elif step[0] == "options":
             ffcx.options.get_options(dict(step[1]))
     if target_objs is None:
